@@ -84,7 +84,12 @@ def main():
     try:
         checks = {}
         for p in props:
+            ev = os.path.join(VERIF, "evidence", p + ".json")
+            saved = open(ev).read() if os.path.exists(ev) else None
             rc, out = sh([sys.executable, "check.py", p, "--tier", tier], VERIF, timeout=3600)
+            if saved is not None:      # evidence of the unchanged tree is kept, not the mutant's
+                open(ev, "w").write(saved)
+            shutil.rmtree(os.path.join(VERIF, "replays", p), ignore_errors=True)
             viol = [l for l in out.splitlines() if l.startswith("VIOLATION") or l.startswith("  ->")]
             checks[p] = {"exit": rc, "violations": viol[:8], "tail": out.splitlines()[-1] if out.splitlines() else ""}
         res["checks"] = checks
